@@ -753,6 +753,123 @@ var x = k + 1
 
 const k = 1
 """),
+    ("go-embedded-all-shapes", """package main
+
+import (
+	"bytes"
+	"strings"
+)
+
+type Base struct{ id int }
+
+type Mid struct {
+	Base
+	m int
+}
+
+type Top struct {
+	*Base
+	Mid
+	bytes.Buffer
+	*strings.Builder
+	x, y int
+}
+
+type Named interface{ Name() string }
+
+type Both interface {
+	Named
+	Id() int
+}
+
+func (t *Top) Id() int { return t.Base.id + t.Mid.Base.id + t.x + t.y }
+
+func take(s struct {
+	*Mid
+	bytes.Buffer
+	k int
+}) int {
+	return s.k + s.Mid.m + s.Buffer.Len()
+}
+
+func main() {
+	t := &Top{Base: &Base{1}, Mid: Mid{Base{2}, 3}, Builder: &strings.Builder{}, x: 4}
+	lit := struct {
+		Base
+		*strings.Builder
+	}{Base{5}, nil}
+	use(t.Id(), t.Buffer.Len(), t.Builder.Len(), lit.Base.id, lit.Builder == nil, take(struct {
+		*Mid
+		bytes.Buffer
+		k int
+	}{Mid: &t.Mid, k: 6}))
+}
+
+func use(args ...interface{}) {}
+"""),
+    ("go-embedded-local-type", """package main
+
+type Base struct{ id int }
+
+func main() {
+	type Loc struct {
+		*Base
+		n int
+	}
+	v := Loc{&Base{1}, 2}
+	use(v.Base.id, v.n)
+}
+
+func use(args ...interface{}) {}
+"""),
+    ("go-receivers-params-results", """package main
+
+type T struct{ n int }
+
+func (t T) Get() int { return t.n }
+
+func (t *T) Set(v int) { t.n = v }
+
+func (T) Static() int { return 1 }
+
+func (_ *T) Blank() int { return 2 }
+
+func f(a int, b, c string, _ int, rest ...int) (n int, s string, _ error) {
+	n = a + len(rest)
+	s = b + c
+	return
+}
+
+func g(int, string) (int, error) { return 0, nil }
+
+const (
+	A = iota
+	B
+	C
+)
+
+func kind(v interface{}) int {
+	switch x := v.(type) {
+	case int:
+		return x
+	case string:
+		return len(x)
+	default:
+		use(x)
+	}
+	return -1
+}
+
+func main() {
+	t := &T{1}
+	t.Set(2)
+	use(t.Get(), t.Static(), t.Blank(), A, B, C, kind(1))
+	use(f(1, "a", "b", 2, 3, 4))
+	use(g(1, "x"))
+}
+
+func use(args ...interface{}) {}
+"""),
 ]
 
 
